@@ -5,6 +5,7 @@ import (
 	"fmt"
 	"os"
 	"path/filepath"
+	"reflect"
 	"sync"
 	"sync/atomic"
 	"syscall"
@@ -96,7 +97,7 @@ func (r *Run) Watchdog(limit time.Duration, mk func(cur string) any) {
 					dir = filepath.Join(Work(), "run", "misc")
 				}
 				body := map[string]any{"property": r.ID, "stage": r.Stage, "tier": r.Tier, "seed": r.Seed,
-					"sig": "hang:" + Q(cur), "desc": fmt.Sprintf("a call did not return within %v", limit), "case": mk(cur)}
+					"sig": "hang:" + Q(cur), "desc": fmt.Sprintf("a call did not return within %v", limit), "case": encodeRaw(reflect.ValueOf(mk(cur)))}
 				b, _ := json.MarshalIndent(body, "", " ")
 				_ = os.WriteFile(filepath.Join(dir, r.Stage+".hang.json"), b, 0o644)
 				fmt.Printf("WATCHDOG property=%s stage=%s: no progress for %v on %s\n", r.ID, r.Stage, limit, Q(cur))
